@@ -135,7 +135,8 @@ def answerRun (st : St) (line : String) : St × String :=
           if perm == "N" then none else some (fun _ => pList pN perm)
         let nEv : Option Nat := if nev == "N" then none else some (pN nev)
         let self : TdmObj Ev := if mode.startsWith "H:" then st.tdm else TdmObj.fresh
-        match initTrialObj true self K evs (chainAll ms) argsort nEv with
+        -- `tdm.index_field_name = ...` (property setter), then `tdm.initialize_trial(...)`
+        match (self.setIndexField argsort).initialize K evs (chainAll ms) nEv with
         | none => (st, "ERR")
         | some s =>
           let ans := s!"ev:{fListD fNat (s.events.map Ev.tag)} {fmtPairs (s.srcEvtIdxs.getD [])} nv:{(s.nValues.getD 0)} ns:{s.nSources} ne:{s.nEvents} bkg:{s.nPureBkg}"
